@@ -34,6 +34,16 @@ fn poly(a: &Arg) -> Option<Poly> {
     p.coeffs.copy_from_slice(&v);
     Some(p)
 }
+thread_local! { pub static DIRTY: std::cell::Cell<bool> = std::cell::Cell::new(false); }
+/// A polynomial to be used as an OUTPUT object: all-zero normally; when the case's function name carries the suffix "~d"
+/// (dirty-output variant) it holds arbitrary non-zero old values, as a reused work object would.
+fn np() -> Poly {
+    let mut p = Poly::default();
+    if DIRTY.with(|d| d.get()) {
+        for (i, c) in p.coeffs.iter_mut().enumerate() { *c = 1234567 - (i as i32) * 7919; }
+    }
+    p
+}
 fn opoly(p: &Poly) -> Out {
     Out::Ints(p.coeffs.iter().map(|x| *x as i128).collect())
 }
@@ -58,6 +68,8 @@ macro_rules! vec_level {
             use $pv as pv;
             pub const K: usize = $K;
             pub const L: usize = $L;
+            pub fn nk() -> pv::Polyveck { let mut v = pv::Polyveck::default(); for p in v.vec.iter_mut() { *p = np(); } v }
+            pub fn nl() -> pv::Polyvecl { let mut v = pv::Polyvecl::default(); for p in v.vec.iter_mut() { *p = np(); } v }
             pub fn veck(a: &Arg) -> Option<pv::Polyveck> {
                 let v = i32s(a)?;
                 if v.len() != K * 256 {
@@ -107,29 +119,29 @@ macro_rules! vec_level {
                         }
                         let vv = vecl(&a[1])?;
                         // _dirty: the output vector holds arbitrary old values on entry (a reused work buffer)
-                        let mut t = if f == "matrix_pointwise_dirty" { veck(&a[2])? } else { pv::Polyveck::default() };
+                        let mut t = if f == "matrix_pointwise_dirty" { veck(&a[2])? } else { nk() };
                         pv::matrix_pointwise_montgomery(&mut t, &m, &vv);
                         vec![ok(&t)]
                     }
                     "l_pointwise_acc" | "l_pointwise_acc_dirty" => {
                         let (u, v) = (vecl(&a[0])?, vecl(&a[1])?);
-                        let mut w = Poly::default();
+                        let mut w = np();
                         if f == "l_pointwise_acc_dirty" { w.coeffs.copy_from_slice(&i32s(&a[2])?[..256]); }
                         pv::l_pointwise_acc_montgomery(&mut w, &u, &v);
                         vec![opoly(&w)]
                     }
                     "l_uniform_eta" => {
-                        let mut v = pv::Polyvecl::default();
+                        let mut v = nl();
                         pv::l_uniform_eta(&mut v, bytes(&a[0]), u16::try_from(int(&a[1])).ok()?);
                         vec![ol(&v)]
                     }
                     "k_uniform_eta" => {
-                        let mut v = pv::Polyveck::default();
+                        let mut v = nk();
                         pv::k_uniform_eta(&mut v, bytes(&a[0]), u16::try_from(int(&a[1])).ok()?);
                         vec![ok(&v)]
                     }
                     "l_uniform_gamma1" => {
-                        let mut v = pv::Polyvecl::default();
+                        let mut v = nl();
                         pv::l_uniform_gamma1(&mut v, bytes(&a[0]), u16::try_from(int(&a[1])).ok()?);
                         vec![ol(&v)]
                     }
@@ -146,13 +158,13 @@ macro_rules! vec_level {
                     "k_sub" => { let mut w = veck(&a[0])?; let v = veck(&a[1])?; pv::k_sub(&mut w, &v); vec![ok(&w)] }
                     "l_pointwise_poly" => {
                         let p = poly(&a[0])?; let v = vecl(&a[1])?;
-                        let mut r = pv::Polyvecl::default();
+                        let mut r = nl();
                         pv::l_pointwise_poly_montgomery(&mut r, &p, &v);
                         vec![ol(&r)]
                     }
                     "k_pointwise_poly" => {
                         let p = poly(&a[0])?; let v = veck(&a[1])?;
-                        let mut r = pv::Polyveck::default();
+                        let mut r = nk();
                         pv::k_pointwise_poly_montgomery(&mut r, &p, &v);
                         vec![ok(&r)]
                     }
@@ -170,7 +182,7 @@ macro_rules! vec_level {
                     }
                     "k_make_hint" => {
                         let v0 = veck(&a[0])?; let v1 = veck(&a[1])?;
-                        let mut h = pv::Polyveck::default();
+                        let mut h = nk();
                         let s = pv::k_make_hint(&mut h, &v0, &v1);
                         vec![ok(&h), oint(s)]
                     }
@@ -209,12 +221,12 @@ macro_rules! poly_set {
         use $m as p;
         match $f {
             "poly_decompose" => {
-                let mut a1 = poly(&$a[0])?; let mut a0 = Poly::default();
+                let mut a1 = poly(&$a[0])?; let mut a0 = np();
                 p::decompose(&mut a1, &mut a0);
                 Some(vec![opoly(&a1), opoly(&a0)])
             }
             "poly_make_hint" => {
-                let a0 = poly(&$a[0])?; let a1 = poly(&$a[1])?; let mut h = Poly::default();
+                let a0 = poly(&$a[0])?; let a1 = poly(&$a[1])?; let mut h = np();
                 let s = p::make_hint(&mut h, &a0, &a1);
                 Some(vec![opoly(&h), oint(s)])
             }
@@ -228,19 +240,19 @@ macro_rules! poly_set {
                 let c = p::rej_eta(&mut v, alen, buf, buflen);
                 Some(vec![Out::Ints(v.iter().map(|x| *x as i128).collect()), Out::Int(c as i128)])
             }
-            "uniform_eta" => { let mut x = Poly::default(); p::uniform_eta(&mut x, bytes(&$a[0]), u16::try_from(int(&$a[1])).ok()?); Some(vec![opoly(&x)]) }
+            "uniform_eta" => { let mut x = np(); p::uniform_eta(&mut x, bytes(&$a[0]), u16::try_from(int(&$a[1])).ok()?); Some(vec![opoly(&x)]) }
             "uniform_eta_tap" => {
-                let mut x = Poly::default();
+                let mut x = np();
                 cd::verif_hooks::xof_script(Some(bytes(&$a[0]).to_vec()));
                 let r = std::panic::catch_unwind(std::panic::AssertUnwindSafe(|| p::uniform_eta(&mut x, &[0u8; 64], 0)));
                 cd::verif_hooks::xof_script(None);
                 if r.is_err() { panic!("tap") }
                 Some(vec![opoly(&x)])
             }
-            "uniform_gamma1" => { let mut x = Poly::default(); p::uniform_gamma1(&mut x, bytes(&$a[0]), u16::try_from(int(&$a[1])).ok()?); Some(vec![opoly(&x)]) }
-            "challenge" => { let mut x = Poly::default(); p::challenge(&mut x, bytes(&$a[0])); Some(vec![opoly(&x)]) }
+            "uniform_gamma1" => { let mut x = np(); p::uniform_gamma1(&mut x, bytes(&$a[0]), u16::try_from(int(&$a[1])).ok()?); Some(vec![opoly(&x)]) }
+            "challenge" => { let mut x = np(); p::challenge(&mut x, bytes(&$a[0])); Some(vec![opoly(&x)]) }
             "challenge_tap" => {
-                let mut x = Poly::default();
+                let mut x = np();
                 cd::verif_hooks::xof_script(Some(bytes(&$a[0]).to_vec()));
                 let r = std::panic::catch_unwind(std::panic::AssertUnwindSafe(|| p::challenge(&mut x, &[0u8; 64])));
                 cd::verif_hooks::xof_script(None);
@@ -248,9 +260,9 @@ macro_rules! poly_set {
                 Some(vec![opoly(&x)])
             }
             "eta_pack" => { let mut r = bytes(&$a[0]).to_vec(); let x = poly(&$a[1])?; p::eta_pack(&mut r, &x); Some(vec![obytes(&r)]) }
-            "eta_unpack" => { let mut x = Poly::default(); p::eta_unpack(&mut x, bytes(&$a[0])); Some(vec![opoly(&x)]) }
+            "eta_unpack" => { let mut x = np(); p::eta_unpack(&mut x, bytes(&$a[0])); Some(vec![opoly(&x)]) }
             "z_pack" => { let mut r = bytes(&$a[0]).to_vec(); let x = poly(&$a[1])?; p::z_pack(&mut r, &x); Some(vec![obytes(&r)]) }
-            "z_unpack" => { let mut x = Poly::default(); p::z_unpack(&mut x, bytes(&$a[0])); Some(vec![opoly(&x)]) }
+            "z_unpack" => { let mut x = np(); p::z_unpack(&mut x, bytes(&$a[0])); Some(vec![opoly(&x)]) }
             "w1_pack" => { let mut r = bytes(&$a[0]).to_vec(); let x = poly(&$a[1])?; p::w1_pack(&mut r, &x); Some(vec![obytes(&r)]) }
             _ => None,
         }
@@ -344,6 +356,18 @@ macro_rules! full_set {
                             sig[i / 8] ^= 1 << (i % 8);
                         }
                         vec![oint(acc), oint(first), oint(sg_::verify(&sig, m, pk) as i32)]
+                    }
+                    // every single-bit flip of the PUBLIC KEY: number accepted, first accepted bit index (or -1)
+                    "verify_pk_flips" => {
+                        let sig = bytes(&a[0]); let m = bytes(&a[1]);
+                        let mut pk = bytes(&a[2]).to_vec();
+                        let mut acc = 0i64; let mut first = -1i64;
+                        for i in 0..pk.len() * 8 {
+                            pk[i / 8] ^= 1 << (i % 8);
+                            if sg_::verify(sig, m, &pk) { acc += 1; if first < 0 { first = i as i64; } }
+                            pk[i / 8] ^= 1 << (i % 8);
+                        }
+                        vec![oint(acc), oint(first), oint(sg_::verify(sig, m, &pk) as i32)]
                     }
                     // honest-path volume: n key generations (and one signature + verification every `every` keys) under
                     // catch_unwind; returns panics, first panicking seed, sign/verify failures
@@ -507,6 +531,41 @@ macro_rules! full_set {
                         ks.sort(); ks.dedup(); ss.sort(); ss.dedup();
                         vec![oint(nk as i64), oint(ks.len() as i64), oint(ns as i64), oint(ss.len() as i64)]
                     }
+                    // schedule probe: two keys, LONG messages (hashing the message widens any check-then-use window on shared
+                    // state), `threads` barrier-started threads alternately hammering key A and key B; every verification of a
+                    // genuine signature must return true. args: threads iters msglen -> [verifications, failures]
+                    "verify_race" => {
+                        let threads = int(&a[0]) as usize; let iters = int(&a[1]) as usize; let mlen = int(&a[2]) as usize;
+                        let mut keys = Vec::new();
+                        for k in 0..2u8 {
+                            let mut pk = vec![0u8; par::PUBLICKEYBYTES]; let mut sk = vec![0u8; par::SECRETKEYBYTES];
+                            sg_::keypair(&mut pk, &mut sk, Some(&[k + 1; 32]));
+                            let msg: Vec<u8> = (0..mlen).map(|i| (i as u8).wrapping_mul(31).wrapping_add(k)).collect();
+                            let mut sig = vec![0u8; par::SIGNBYTES];
+                            sg_::signature(&mut sig, &msg, &sk, false);
+                            keys.push((pk, msg, sig));
+                        }
+                        let keys = std::sync::Arc::new(keys);
+                        let barrier = std::sync::Arc::new(std::sync::Barrier::new(threads));
+                        let mut hs = Vec::new();
+                        for t in 0..threads {
+                            let (keys, barrier) = (keys.clone(), barrier.clone());
+                            hs.push(std::thread::spawn(move || {
+                                barrier.wait();
+                                let mut bad = 0i64;
+                                for i in 0..iters {
+                                    // even threads stay on one key (cache hits), odd threads alternate (cache replacement)
+                                    let k = if t % 2 == 0 { 0 } else { i % 2 };
+                                    let (pk, msg, sig) = &keys[k];
+                                    if !sg_::verify(sig, msg, pk) { bad += 1; }
+                                }
+                                bad
+                            }));
+                        }
+                        let mut bad = 0i64;
+                        for h in hs { bad += h.join().unwrap(); }
+                        vec![oint((threads * iters) as i64), oint(bad)]
+                    }
                     "draws_seeded" => {
                         let mut pk = vec![0u8; par::PUBLICKEYBYTES]; let mut sk = vec![0u8; par::SECRETKEYBYTES];
                         cd::verif_hooks::rng_script(None);
@@ -585,6 +644,23 @@ macro_rules! dil_api {
                 let pk = api::PublicKey::from_bytes(bytes(&$a[0]));
                 Some(vec![oint(pk.verify(bytes(&$a[1]), bytes(&$a[2])) as i32)])
             }
+            // one key OBJECT used under key A, then overwritten in place with key B (the fields are public) and used again:
+            // args skA pkA skB pkB msg sigA sigB -> [verify before (A), verify after (B), signature after == fresh object's]
+            "obj_reuse" => {
+                let mut kp = api::Keypair::from_bytes(&[bytes(&$a[0]), bytes(&$a[1])].concat());
+                let v0 = kp.verify(bytes(&$a[4]), bytes(&$a[5]));
+                let _ = kp.sign(bytes(&$a[4]));
+                kp.secret.bytes.copy_from_slice(bytes(&$a[2]));
+                kp.public.bytes.copy_from_slice(bytes(&$a[3]));
+                let v1 = kp.verify(bytes(&$a[4]), bytes(&$a[6]));
+                let s1 = kp.sign(bytes(&$a[4]));
+                let fresh = api::SecretKey::from_bytes(bytes(&$a[2])).sign(bytes(&$a[4]));
+                let mut pk = api::PublicKey::from_bytes(bytes(&$a[1]));
+                let w0 = pk.verify(bytes(&$a[4]), bytes(&$a[5]));
+                pk.bytes.copy_from_slice(bytes(&$a[3]));
+                let w1 = pk.verify(bytes(&$a[4]), bytes(&$a[6]));
+                Some(vec![oint((v0 && w0) as i32), oint((v1 && w1) as i32), oint((s1[..] == fresh[..]) as i32)])
+            }
             "kp_api_sign" => {
                 let kp = api::Keypair::from_bytes(bytes(&$a[0]));
                 Some(vec![obytes(&kp.sign(bytes(&$a[1])))])
@@ -604,6 +680,21 @@ macro_rules! ml_api {
     ($f:expr, $a:expr, $m:path) => {{
         use $m as api;
         match $f {
+            "obj_reuse" => {
+                let mut kp = api::Keypair::from_bytes(&[bytes(&$a[0]), bytes(&$a[1])].concat());
+                let v0 = kp.verify(bytes(&$a[4]), bytes(&$a[5]), None);
+                let _ = kp.sign(bytes(&$a[4]), None, false);
+                kp.secret.bytes.copy_from_slice(bytes(&$a[2]));
+                kp.public.bytes.copy_from_slice(bytes(&$a[3]));
+                let v1 = kp.verify(bytes(&$a[4]), bytes(&$a[6]), None);
+                let s1 = kp.sign(bytes(&$a[4]), None, false).unwrap();
+                let fresh = api::SecretKey::from_bytes(bytes(&$a[2])).sign(bytes(&$a[4]), None, false).unwrap();
+                let mut pk = api::PublicKey::from_bytes(bytes(&$a[1]));
+                let w0 = pk.verify(bytes(&$a[4]), bytes(&$a[5]), None);
+                pk.bytes.copy_from_slice(bytes(&$a[3]));
+                let w1 = pk.verify(bytes(&$a[4]), bytes(&$a[6]), None);
+                Some(vec![oint((v0 && w0) as i32), oint((v1 && w1) as i32), oint((s1[..] == fresh[..]) as i32)])
+            }
             "ml_sign" | "ml_prehash_sign" => {
                 let sk = api::SecretKey::from_bytes(bytes(&$a[0]));
                 let pre = $f == "ml_prehash_sign";
@@ -776,9 +867,9 @@ pub fn dispatch(f: &str, copy: &str, a: &[Arg]) -> Option<Vec<Out>> {
         "poly_sub" => { let (x, y) = (poly(&a[0])?, poly(&a[1])?); Some(vec![opoly(&cd::poly::sub(&x, &y))]) }
         "poly_sub_ip" => { let (mut x, y) = (poly(&a[0])?, poly(&a[1])?); cd::poly::sub_ip(&mut x, &y); Some(vec![opoly(&x)]) }
         "poly_shiftl" => { let mut p = poly(&a[0])?; cd::poly::shiftl(&mut p); Some(vec![opoly(&p)]) }
-        "poly_pointwise" => { let (x, y) = (poly(&a[0])?, poly(&a[1])?); let mut c = Poly::default(); cd::poly::pointwise_montgomery(&mut c, &x, &y); Some(vec![opoly(&c)]) }
+        "poly_pointwise" => { let (x, y) = (poly(&a[0])?, poly(&a[1])?); let mut c = np(); cd::poly::pointwise_montgomery(&mut c, &x, &y); Some(vec![opoly(&c)]) }
         "poly_pointwise_dirty" => { let (x, y) = (poly(&a[0])?, poly(&a[1])?); let mut c = poly(&a[2])?; cd::poly::pointwise_montgomery(&mut c, &x, &y); Some(vec![opoly(&c)]) }
-        "poly_power2round" => { let mut a1 = poly(&a[0])?; let mut a0 = Poly::default(); cd::poly::power2round(&mut a1, &mut a0); Some(vec![opoly(&a1), opoly(&a0)]) }
+        "poly_power2round" => { let mut a1 = poly(&a[0])?; let mut a0 = np(); cd::poly::power2round(&mut a1, &mut a0); Some(vec![opoly(&a1), opoly(&a0)]) }
         "chknorm" => { let p = poly(&a[0])?; Some(vec![oint(cd::poly::chknorm(&p, i32::try_from(int(&a[1])).ok()?))]) }
         "rej_uniform" => {
             let mut v = i32s(&a[0])?;
@@ -787,9 +878,9 @@ pub fn dispatch(f: &str, copy: &str, a: &[Arg]) -> Option<Vec<Out>> {
             let c = cd::poly::rej_uniform(&mut v, alen, bytes(&a[2]), buflen);
             Some(vec![Out::Ints(v.iter().map(|x| *x as i128).collect()), Out::Int(c as i128)])
         }
-        "uniform" => { let mut p = Poly::default(); cd::poly::uniform(&mut p, bytes(&a[0]), u16::try_from(int(&a[1])).ok()?); Some(vec![opoly(&p)]) }
+        "uniform" => { let mut p = np(); cd::poly::uniform(&mut p, bytes(&a[0]), u16::try_from(int(&a[1])).ok()?); Some(vec![opoly(&p)]) }
         "uniform_tap" => {
-            let mut p = Poly::default();
+            let mut p = np();
             cd::verif_hooks::xof_script(Some(bytes(&a[0]).to_vec()));
             let r = std::panic::catch_unwind(std::panic::AssertUnwindSafe(|| cd::poly::uniform(&mut p, &[0u8; 32], 0)));
             cd::verif_hooks::xof_script(None);
@@ -797,14 +888,23 @@ pub fn dispatch(f: &str, copy: &str, a: &[Arg]) -> Option<Vec<Out>> {
             Some(vec![opoly(&p)])
         }
         "t1_pack" => { let mut r = bytes(&a[0]).to_vec(); let p = poly(&a[1])?; cd::poly::t1_pack(&mut r, &p); Some(vec![obytes(&r)]) }
-        "t1_unpack" => { let mut p = Poly::default(); cd::poly::t1_unpack(&mut p, bytes(&a[0])); Some(vec![opoly(&p)]) }
+        "t1_unpack" => { let mut p = np(); cd::poly::t1_unpack(&mut p, bytes(&a[0])); Some(vec![opoly(&p)]) }
         "t0_pack" => { let mut r = bytes(&a[0]).to_vec(); let p = poly(&a[1])?; cd::poly::t0_pack(&mut r, &p); Some(vec![obytes(&r)]) }
-        "t0_unpack" => { let mut p = Poly::default(); cd::poly::t0_unpack(&mut p, bytes(&a[0])); Some(vec![opoly(&p)]) }
+        "t0_unpack" => { let mut p = np(); cd::poly::t0_unpack(&mut p, bytes(&a[0])); Some(vec![opoly(&p)]) }
         "shake256" => {
             let n = usize::try_from(int(&a[0])).ok()?;
             let mut o = vec![0u8; n];
             let inp = bytes(&a[1]);
             cd::fips202::shake256(&mut o, n, inp, inp.len());
+            Some(vec![obytes(&o)])
+        }
+        // one-shot with an input buffer LONGER than inlen (the callee must read inlen bytes only)
+        "shake256_inlen" => {
+            let n = usize::try_from(int(&a[0])).ok()?;
+            let mut o = vec![0u8; n];
+            let inp = bytes(&a[1]);
+            let inlen = usize::try_from(int(&a[2])).ok()?;
+            cd::fips202::shake256(&mut o, n, inp, inlen);
             Some(vec![obytes(&o)])
         }
         "sweep" => {
